@@ -30,6 +30,9 @@ def decode(ds, path):
     return [int(np.asarray(e["a"]).reshape(-1)[0]) for e in it.iterate_shard(path)]
 
 
+FALSY = {"zero": 0, "flag": False, "empty": "", "none": None, "list": [], "float": 0.0}
+
+
 def kval(meta):
     """The metadata value of a shard (flat {"k": v} or nested {"k": {"id": v}})."""
     v = meta.get("k", 0)
@@ -40,6 +43,7 @@ def run_case(case, fmt, tmp, select=False):
     # "fb+nested": the value lives one level down and the caller updates it in place
     fmt, _, flag = fmt.partition("+")
     nested = flag == "nested"
+    falsy = flag == "falsy"      # the value is accompanied by entries whose values are falsy (0, False, "", None, []): they are part of the metadata
     root = Path(tmp) / "d"
     if root.exists():
         shutil.rmtree(root)
@@ -63,6 +67,8 @@ def run_case(case, fmt, tmp, select=False):
                         d.clear()
                         if op[2]:
                             d["k"] = {"id": op[2]} if nested else op[2]
+                            if falsy:
+                                d.update(FALSY)
                     raised.append(False)
                 else:
                     _, split, o, ok = op
@@ -88,7 +94,10 @@ def run_case(case, fmt, tmp, select=False):
                 ex = decode(ds, p)
             except Exception as e:  # noqa: BLE001
                 ex = f"undecodable:{type(e).__name__}"
-            out.append([sh.number_of_examples, ex, kval(sh.custom_metadata)])
+            k = kval(sh.custom_metadata)
+            if falsy and k and dict(sh.custom_metadata) != dict({"k": k}, **FALSY):
+                k = -1          # the recorded metadata is not the value that was written (some entries are missing or changed)
+            out.append([sh.number_of_examples, ex, k])
         shards[str(si)] = out
     # what a reopened dataset reports
     try:
